@@ -262,6 +262,20 @@ CHECKS = {
     technique="TLA+ spec + TLC; TLC-enumerated request space concretised into real WSGI calls against a real name server and daemon; TLC trace validation",
     ref="6/C20"),
 }
+# what later rounds of seeded changes added to the generated spaces (DESIGN.md sections 11.4b-11.4e)
+LATER = {
+ "C02": "A run-time change pass replaces or shadows a served method after the daemon has cached the class; two clients fetch the metadata of a fresh class at once.",
+ "C04": "Tags also include class dicts and names of other modules' classes under Pyro5.errors; proxy-valued members rotate through every slot (args, attributes, the 'args' attribute, short states, every position of a uri state of each protocol).",
+ "C05": "Items include a complete valid message followed at once by a reset (bytes stay readable, every answer fails), also against a thread-pool server whose workers are all busy.",
+ "C08": "Validators also refuse with message-less exceptions; first messages include foreign protocols shorter than a header with the peer waiting silently.",
+ "C09": "Histories also end connections with a reset, move them to a second daemon, and register classes that inherit their behaviour from a base class.",
+ "C10": "Straddle scripts (tenths of a second) run housekeeping shortly before and shortly after the linger / lifetime deadline.",
+ "C11": "The journal also exists as a class with one instance per connection (effects read back through the caller's own proxy); a refused name must be named by the exception; long batches.",
+ "C12": "The daemon's annotations hook hands out one stored dict; a concurrent pass interleaves slow methods of several clients.",
+ "C13": "A request left unfinished past the communication timeout and a security error are endings after which the daemon must drop the connection.",
+ "C16": "Histories include unregistering a fresh instance of a registered class, ids no uri can carry, and a completely enumerated family in which a weakly registered object's id passes to another object before it is collected.",
+ "C18": "The hand-over of a job and the moment the pool becomes closed are logged inside the critical sections and tied to the atomic effects; grow / shrink / grow scripts; the close starts together with a submission.",
+}
 NOT_YET = {}
 ALL = ["C%02d" % i for i in range(1, 21)]
 
@@ -278,7 +292,8 @@ def main():
             "evidence_file": "evidence/%s.json" % pid,
             "replay_cmd_template": "./check %s --replay {path}" % pid,
             "engine": "tla-mbt",
-            "level_claimed": {"category": c["category"], "text": c["text"], "design_ref": "DESIGN.md section " + c["ref"]},
+            "level_claimed": {"category": c["category"], "text": c["text"] + (" " + LATER[pid] if pid in LATER else ""),
+                              "design_ref": "DESIGN.md section " + c["ref"]},
             "level_note": c["note"],
             "technique": c["technique"],
         })
@@ -301,7 +316,7 @@ def main():
                      "kind_free_text": "explicit TLA+ specifications (specs/) checked with TLC; TLC-generated behaviours replayed into the real Pyro5 code "
                                        "under a deterministic in-memory transport / thread scheduler; recorded traces validated by TLC in batches"}],
         "checks": checks,
-        "notes": "Specification modules beyond the listed properties (DESIGN.md section 12) run as ./check E01, ./check E02, ... with the same contract; they are not claims. Exit codes: 0 held, 1 VIOLATION, 2 machinery failure. Genuine defects repaired are listed in known_findings.json (fixed:), unrepaired ones under known.",
+        "notes": "Specification modules beyond the listed properties (DESIGN.md section 12: E01 auto-cleaner, E02 proxy life cycle, E03 name resolution, E04 daemon life cycle, E05 oneway calls) run as ./check E01 ... ./check E05 with the same contract; they are not claims. Exit codes: 0 held, 1 VIOLATION, 2 machinery failure. Genuine defects repaired are listed in known_findings.json (fixed:), unrepaired ones under known.",
         "not_applicable": [{"property_id": p, "reason": NOT_YET.get(p, "check not built yet in this round (planned, see DESIGN.md section 6)")} for p in ALL if p not in CHECKS],
     }
     with open(os.path.join(HERE, "MANIFEST.json"), "w") as f:
